@@ -47,8 +47,15 @@ Pipeline (DESIGN.md 7-C08, notes/CONVENTIONS.md):
      network (construction script only): check(<negated literals>) must answer false (lemma_checks).  A stale
      predecessor / enforcing constraint / reason left behind by a pop shows up here (the recorded clause omits
      literals), and only here: the bogus clause is part of the "recorded clauses" both networks of 3 share.
+  7. coverage of the first-write-wins undo layers: after every command the harness reports (command mu, exact) for every
+     standing level and theory how many LRA bounds / IDL cells / RDL cells / OV domains were tightened two or more times
+     within that level (and whether on top of an older finite value from a lower level, and whether through a path);
+     the check attributes every undone level to pop / next() / backjump and FAILS (c08:coverage-hole:..) when, for some
+     theory, no such level was undone in each of the three ways or never over an older finite value.  mu's replay also
+     cross-checks the undo layers themselves (net:undo-layers-do-not-replay).
   Every disagreement is minimised (delta debugging over the history, then over the clauses of the construction,
-  re-running both networks) before it is reported.
+  re-running both networks) before it is reported.  Every problem is reported through ctx.violation under its own
+  signature; the only entry of known_findings.json that can match is the LRA-basis finding, and only after step 3's proof.
 """
 import glob
 import json
@@ -132,7 +139,8 @@ SIG_NAME = {"rdl": "rdl-distance", "idl": "idl-distance", "ov": "ov-domain", "lr
 
 
 def what_differs(d):
-    return SIG_NAME[[s for s in ORDER if any(x[0] == s for x in d)][0]]
+    """every kind of observable that differs (a wrong distance usually drags literals and other theories along through the clauses)"""
+    return "+".join(SIG_NAME[s] for s in ORDER if any(x[0] == s for x in d))
 
 
 def obs_fields(line):
@@ -1088,11 +1096,15 @@ def run(ctx):
     cov["comparison_points"]["one_sided_where_fresh_has_more_literals_assigned"] = stats.fresh_knows_more
     cov["distinct_nontrivial"] = stats.nontrivial
     cov["traces_validated_against_impl"] = stats.agreed
+    cov["scenario_cases"] = dict(cases=min(len(scen), ncase), rule="small network + one gadget of the named theory; the history starts with [d0] d [x] "
+                                 "and pop / next() / a propositional conflict / a theory conflict backjumping below d's level, then a probe "
+                                 "that makes the theory explain through the restored bound / cell (tools/net_gen.py)")
     cov["rule"] = ("comparison point = history command after which the queue is empty and the network is not dead; evaluated = the fresh "
                    "network replayed construction + recorded clauses + standing decisions without conflict; non-trivial = at least one LRA "
                    "bound or IDL/RDL distance differs from its value after the construction; networks: 3-8 booleans, 2-5 LRA variables / "
                    "4-12 atoms on 2-4 shared expressions, 3-7 IDL and RDL time points / 5-15 distance constraints on 2-10 ordered pairs, "
-                   "1-3 OV variables, 5-20 linking clauses + ladder chains; histories of 25-110 commands, depth <= 12")
+                   "1-3 OV variables, 5-20 linking clauses + ladder chains, 1-2 multi-update gadgets (trigger d -> 2-3 literals tightening one "
+                   "bound / cell / domain, older looser literal under d0, conflict makers, probe); histories of 25-110 commands, depth <= 12")
     cov["input_distribution"] = dict(cases=stats.cases, profiles=profiles, ops=stats.ops, skipped_ops=stats.skips,
                                      max_depth_per_case=dict(sorted(stats.depth.items())), deepest=stats.max_depth,
                                      conflicts_learnt_kind0=stats.hooks.get(0, 0), next_nogoods_kind1=stats.hooks.get(1, 0),
@@ -1101,8 +1113,9 @@ def run(ctx):
                                      cases_ending_dead=stats.dead_cases)
     cov["impl_wall_s"] = round(time.time() - t_impl, 1)
     cov["trusted_base"] += [
-        "harness/h_net.cpp (drives the real sat_core + 4 theories; prints obs through the public observers), tools/net_gen.py, "
-        "tools/checks/c08.py (fresh-network replay, comparison, minimisation)",
+        "harness/h_net.cpp (drives the real sat_core + 4 theories; prints obs through the public observers; the mu statistic replays the "
+        "level's theory literals on the matrix rebuilt from the undo layers), tools/net_gen.py, "
+        "tools/checks/c08.py (fresh-network replay, comparison, classification of the known finding by completion, minimisation)",
         "theory lemmas / theory conflicts / next() no-goods (hook kinds 2, 3, 1) enter the RUP stream as axioms: their validity is the "
         "business of C07 / C09 / C10",
         "the h_net harness is compiled without -DNDEBUG (the asserts of /repo are alive; an assert failure on a legal history is "
